@@ -68,6 +68,11 @@ var entries = []string{"Send", "SendElement", "Encode", "EncodeElement", "TokenW
 	// connection is healthy): the call fails and the stream stays open
 	"EncodeBad", "EncodeElementBad"}
 
+// entries that wait for the peer's response when they are given a stanza that
+// asks for one: used once the session has ended (on an open session they would
+// wait for a peer that never answers)
+var awaitEntries = []string{"AwaitSendIQ", "AwaitSendIQElement", "AwaitEncodeIQ", "AwaitEncodeIQElement", "AwaitUnmarshalIQ", "AwaitIterIQ", "AwaitSendMessage", "AwaitSendMessageElement", "AwaitEncodeMessage", "AwaitSendPresence", "AwaitSendPresenceElement", "AwaitEncodePresence"}
+
 // entries whose payload is a token reader (the harness can act while it is read)
 var readerEntries = map[string]bool{"Send": true, "SendElement": true, "SendIQ": true, "SendIQElement": true, "SendMessage": true, "SendPresence": true, "SendPresenceElement": true}
 
@@ -203,6 +208,11 @@ func (a *action) transmit(s *xmpp.Session, ns string, conn *wire.Conn) {
 		ctx = cctx
 		rd = func(n *xt.Node) xml.TokenReader { return &cancelReader{r: n.Reader(), cancel: cancel, conn: conn} }
 	}
+	if strings.HasPrefix(a.entry, "Await") {
+		cctx, cancel := context.WithTimeout(ctx, 3*time.Second)
+		defer cancel()
+		ctx = cctx
+	}
 	m := strconv.Itoa(a.idx)
 	el := func(local, typ string) *xt.Node {
 		n := xt.El(ns, local, []xml.Attr{xt.A("m", m), xt.A("id", "i"+m)}, xt.El("urn:verif:c10", "p", nil, xt.Tx(body(a.big))))
@@ -250,6 +260,37 @@ func (a *action) transmit(s *xmpp.Session, ns string, conn *wire.Conn) {
 			resp, a.err = s.SendPresence(ctx, rd(el("presence", "error")))
 		case "SendPresenceElement":
 			resp, a.err = s.SendPresenceElement(ctx, rd(pay), stanza.Presence{Type: stanza.ErrorPresence, ID: "i" + m})
+		case "AwaitSendIQ":
+			resp, a.err = s.SendIQ(ctx, rd(el("iq", "get")))
+		case "AwaitSendIQElement":
+			resp, a.err = s.SendIQElement(ctx, rd(pay), stanza.IQ{Type: stanza.SetIQ, ID: "i" + m})
+		case "AwaitEncodeIQ":
+			resp, a.err = s.EncodeIQ(ctx, sval{XMLName: xml.Name{Space: ns, Local: "iq"}, M: m, ID: "i" + m, Type: "set", Text: body(a.big)})
+		case "AwaitEncodeIQElement":
+			resp, a.err = s.EncodeIQElement(ctx, sval{XMLName: xml.Name{Space: "urn:verif:c10", Local: "p"}, M: m, Text: body(a.big)}, stanza.IQ{Type: stanza.GetIQ, ID: "i" + m})
+		case "AwaitUnmarshalIQ":
+			var v sval
+			a.err = s.UnmarshalIQ(ctx, rd(el("iq", "get")), &v)
+		case "AwaitIterIQ":
+			var it *xmlstream.Iter
+			var st *xml.StartElement
+			it, st, a.err = s.IterIQ(ctx, rd(el("iq", "set")))
+			if it != nil {
+				_ = it.Close()
+			}
+			_ = st
+		case "AwaitSendMessage":
+			resp, a.err = s.SendMessage(ctx, rd(el("message", "chat")))
+		case "AwaitSendMessageElement":
+			resp, a.err = s.SendMessageElement(ctx, rd(pay), stanza.Message{Type: stanza.NormalMessage, ID: "i" + m})
+		case "AwaitEncodeMessage":
+			resp, a.err = s.EncodeMessage(ctx, sval{XMLName: xml.Name{Space: ns, Local: "message"}, M: m, ID: "i" + m, Type: "chat", Text: body(a.big)})
+		case "AwaitSendPresence":
+			resp, a.err = s.SendPresence(ctx, rd(el("presence", "")))
+		case "AwaitSendPresenceElement":
+			resp, a.err = s.SendPresenceElement(ctx, rd(pay), stanza.Presence{Type: stanza.SubscribePresence, ID: "i" + m})
+		case "AwaitEncodePresence":
+			resp, a.err = s.EncodePresence(ctx, sval{XMLName: xml.Name{Space: ns, Local: "presence"}, M: m, ID: "i" + m, Text: body(a.big)})
 		}
 		if resp != nil {
 			_ = resp.Close()
@@ -710,12 +751,25 @@ func check(t interface {
 			}
 			ev.Class("inconclusive-timeout")
 		}
-		// transmit after Serve has returned must fail too
-		a := &action{kind: "transmit", entry: "Send", idx: 9999}
-		before := sv.Conn.OutputLen()
-		a.transmit(s, ns, sv.Conn)
-		if !errors.Is(a.err, xmpp.ErrOutputStreamClosed) || sv.Conn.OutputLen() != before {
-			fail("Send after Serve returned: err=%v, %d bytes written; want ErrOutputStreamClosed and nothing written", a.err, sv.Conn.OutputLen()-before)
+	}
+	// transmit after the session has ended (Serve has returned, or Close has
+	// and its closing tag went out) must fail too: through every entry point,
+	// those that would go on to wait for a response included
+	if tc.serve || (anyClose && !tc.closeWriteFails) {
+		what := "Serve returned"
+		if !tc.serve {
+			what = "Close returned"
+		}
+		for k, entry := range append(append([]string{}, entries...), awaitEntries...) {
+			a := &action{kind: "transmit", entry: entry, idx: 9000 + k}
+			before := sv.Conn.OutputLen()
+			a.transmit(s, ns, sv.Conn)
+			if a.panicked != "" {
+				fail("%s after %s: %s", entry, what, a.panicked)
+			}
+			if !errors.Is(a.err, xmpp.ErrOutputStreamClosed) || sv.Conn.OutputLen() != before {
+				fail("%s after %s: err=%v, %d bytes written; want ErrOutputStreamClosed and nothing written", entry, what, a.err, sv.Conn.OutputLen()-before)
+			}
 		}
 	}
 }
